@@ -335,7 +335,7 @@ fn run_shard(ctx: &ShardCtx) {
     };
     ctx.run_prop(
         "feature-matrix",
-        ctx.tier.pick(30_000, 600_000),
+        ctx.tier.pick(100_000, 1_000_000),
         case_strategy(opts, &["group", "group", "enum", "raw"]),
         case_json,
         |c| match run_case(&mut b.borrow_mut(), c) {
